@@ -19,6 +19,7 @@ def run(ctx):
     ctx.explain("E-FFI.fresh: an exported function returning a handle never returns one of its argument handles (the "
                 "caller unrefs argument and result separately), except the *_ref functions, which take a reference.")
     n = effi.check_fresh_handles(ctx, F)
+    effi.check_zip_before_filter(ctx, F)
     ctx.floor("E-FFI.fresh", "exported functions taking and returning a handle", n, 50)
     st = elin.run(ctx, F, crates=("oxidd_ffi_c",), skip_guard_table=True)
     ctx.floor("E-LIN", "FFI bodies analysed", st["bodies"], 300)
